@@ -190,7 +190,15 @@ func (f *fixture) addGroup(name string, forms [3]string, legacy bool, extra map[
 		// obsolete on-disk format: upgraded to a "present" user on load
 		g.Legacy = userFx{Name: f.mk.datum(name, "user-name", mk(name+".user.legacy")), Pw: mk(name + ".pw.legacy")}
 		f.mk.secret("plain-password", g.Legacy.Pw)
-		d["presenter"] = []any{map[string]any{"username": g.Legacy.Name, "password": g.Legacy.Pw}}
+		// ... plus entries the upgrade ignores: the same user a second time, a
+		// user that "users" already defines, an anonymous entry beside the
+		// wildcard user -- each with a password of its own
+		dup := f.mk.secret("plain-password", mk(name+".pw.legacy-dup"))
+		dupOrd := f.mk.secret("plain-password", mk(name+".pw.legacy-ord"))
+		dupAnon := f.mk.secret("plain-password", mk(name+".pw.legacy-anon"))
+		d["presenter"] = []any{map[string]any{"username": g.Legacy.Name, "password": g.Legacy.Pw},
+			map[string]any{"username": g.Legacy.Name, "password": dup}}
+		d["other"] = []any{map[string]any{"username": g.Ord.Name, "password": dupOrd}, map[string]any{"password": dupAnon}}
 	}
 	for k, v := range extra {
 		d[k] = v
@@ -215,6 +223,7 @@ func buildFixture() *fixture {
 	f.srvUsr = userFx{Name: f.mk.datum("", "server-user-name", mk("srv.user.plain")), Pw: f.mk.secret("server-password", mk("srv.pw.plain"))}
 	f.files["data/config.json"] = mustJSON(map[string]any{
 		"writableGroups":   true,
+		"canonicalHost":    "galene.example",
 		"allowAdminOrigin": []string{"https://admin.example"},
 		"users": map[string]any{
 			f.srvAdm.Name: map[string]any{"password": f.srvAdm.Pw, "permissions": "admin"},
@@ -371,10 +380,15 @@ func initProcess() {
 // signJWT makes a cryptographic token for group grp.  The JWT library reads
 // the real clock, so the validity window is taken around the real time.
 func signJWT(key []byte, kid, grp string, perms []string) string {
+	return signJWTAud(key, kid, "https://galene.example/group/"+grp+"/", perms)
+}
+
+// signJWTAud: the same with an arbitrary audience claim (a string or a list).
+func signJWTAud(key []byte, kid string, aud any, perms []string) string {
 	now := time.Now()
 	t := jwt.NewWithClaims(jwt.SigningMethodHS256, jwt.MapClaims{
 		"sub":         "jwtuser",
-		"aud":         "https://galene.example/group/" + grp + "/",
+		"aud":         aud,
 		"permissions": perms,
 		"iat":         now.Add(-time.Hour).Unix(),
 		"exp":         now.Add(48 * time.Hour).Unix(),
